@@ -18,24 +18,40 @@ import (
 // projection of the map's internal state (taken while all threads are parked).
 func init() { comps["syncmap"] = driveSyncMap }
 
+// The trace speaks in ids: key ids 1, 2, 3 and value ids > 0 (0 = "no value").  The Go keys and values behind them are shifted
+// so that the ZERO values of both types are in play: key id k is the Go key k-1, value id v is the Go value v-11 (value id 11,
+// the first value stored by goroutine 1, is the Go zero value).  "absent" answers come with ok = false and are written as id 0.
+func mapKey(id int) int  { return id - 1 }
+func mapVal(id int) int  { return id - 11 }
+func mapValID(v int) int { return v + 11 }
+func mapRet(v int, ok bool, stored bool) int {
+	if !ok && !stored {
+		return 0
+	}
+	return mapValID(v)
+}
+
 func mapCall(m *sync2.Map[int, int], c M) Call {
 	op, k, v := str(c, "op"), num(c, "k"), num(c, "v")
 	return Call{Desc: M{"op": op, "k": k, "v": v}, Fn: func() M {
 		r := M{"rv": 0, "rok": false, "rep": []int{}}
 		switch op {
 		case "Load":
-			r["rv"], r["rok"] = m.Load(k)
+			x, ok := m.Load(mapKey(k))
+			r["rv"], r["rok"] = mapRet(x, ok, false), ok
 		case "Store":
-			m.Store(k, v)
+			m.Store(mapKey(k), mapVal(v))
 		case "LoadOrStore":
-			r["rv"], r["rok"] = m.LoadOrStore(k, v)
+			x, loaded := m.LoadOrStore(mapKey(k), mapVal(v))
+			r["rv"], r["rok"] = mapRet(x, loaded, true), loaded // not loaded: the value just stored comes back
 		case "LoadAndDelete":
-			r["rv"], r["rok"] = m.LoadAndDelete(k)
+			x, ok := m.LoadAndDelete(mapKey(k))
+			r["rv"], r["rok"] = mapRet(x, ok, false), ok
 		case "Delete":
-			m.Delete(k)
+			m.Delete(mapKey(k))
 		case "Range":
 			rep := []int{} // callbacks in order: k1,v1,k2,v2...
-			m.Range(func(k, v int) bool { rep = append(rep, k, v); return true })
+			m.Range(func(k, v int) bool { rep = append(rep, k+1, mapValID(v)); return true })
 			r["rep"] = rep
 		}
 		return r
@@ -63,21 +79,25 @@ func driveSyncMap(plan []M, out *Out, _ []string) {
 	driveWorld(plan, out, func(p M) *world {
 		m := &sync2.Map[int, int]{}
 		keys := ints(p, "keys")
+		gokeys := make([]int, len(keys))
+		for i, k := range keys {
+			gokeys[i] = mapKey(k)
+		}
 		return &world{
 			calls: func(v any) []Call { return calls(m, v) },
 			snap: func(s *Sched, e M) M {
-				sn := sync2.VerifSnapshot(m, keys, func(v int) int { return v })
+				sn := sync2.VerifSnapshot(m, gokeys, mapValID)
 				e["r"], e["d"], e["am"], e["dn"], e["ms"], e["mu"] = nz(sn.R), nz(sn.D), sn.Amended, sn.DirtyNil, sn.Misses, s.MutexOwner(sync2.VerifMapMutex(m))
 				return e
 			},
 			final: func() []M {
 				evs := []M{}
 				for _, k := range keys {
-					v, ok := m.Load(k)
-					evs = append(evs, M{"ev": "final", "op": "Load", "k": k, "rv": v, "rok": ok})
+					v, ok := m.Load(mapKey(k))
+					evs = append(evs, M{"ev": "final", "op": "Load", "k": k, "rv": mapRet(v, ok, false), "rok": ok})
 				}
 				rep := []int{}
-				m.Range(func(k, v int) bool { rep = append(rep, k, v); return true })
+				m.Range(func(k, v int) bool { rep = append(rep, k+1, mapValID(v)); return true })
 				return append(evs, M{"ev": "final", "op": "Range", "k": 0, "rv": 0, "rok": false, "rep": rep})
 			},
 		}
